@@ -300,8 +300,14 @@ fn classify<T>(r: std::thread::Result<Result<T, ()>>) -> Outcome {
     }
 }
 
-fn call_top(ac: &AhoCorasick, api: &str, hay: &[u8], anch: bool, npat: usize) -> Outcome {
-    let inp = || Input::new(hay).anchored(if anch { Anchored::Yes } else { Anchored::No });
+fn call_top(ac: &AhoCorasick, api: &str, hay: &[u8], anch: bool, npat: usize, span: Option<(usize, usize)>) -> Outcome {
+    let inp = || {
+        let i = Input::new(hay).anchored(if anch { Anchored::Yes } else { Anchored::No });
+        match span {
+            Some((st, e)) => i.span(st..e),
+            None => i,
+        }
+    };
     let repl: Vec<Vec<u8>> = (0..npat).map(|_| b"r".to_vec()).collect();
     let repl_s: Vec<String> = (0..npat).map(|_| "r".to_string()).collect();
     let hs = String::from_utf8_lossy(hay).to_string();
@@ -416,8 +422,9 @@ pub fn cfgprod(args: &Args) -> Report {
         let has_empty = pats.iter().any(|p| p.is_empty());
         for api in APIS {
             for anch in [false, true] {
-                for hay in &hays {
-                    let got = call_top(&b, api, hay, anch, pats.len());
+                // the rule does not look at the span: whole haystack, an empty span, an exhausted span (start = end + 1)
+                for (hay, span) in hays.iter().map(|h| (h, None)).chain([(&hays[1], Some((2usize, 2usize))), (&hays[1], Some((1, 0))), (&hays[1], Some((4, 3)))]) {
+                    let got = call_top(&b, api, hay, anch, pats.len(), span);
                     let rej = rejected(api, *mk, *sk, anch, has_empty);
                     let fallible = api.starts_with("try_");
                     let want = if !rej { Outcome::Ok } else if fallible { Outcome::Err } else { Outcome::Panic };
@@ -425,7 +432,7 @@ pub fn cfgprod(args: &Args) -> Report {
                     if got != want {
                         rep.fail(Fail {
                             key: format!("cfgprod:{}:{}:{:?}:anch={}:{:?}:empty={}", api, mk.name(), sk, *&anch as u8, engine, has_empty as u8),
-                            what: format!("{} on match kind {} start kind {:?} requested anchored={} engine {:?} patterns {} haystack '{}': expected {:?}, got {:?}", api, mk.name(), sk, anch, engine, show_pats(&pats[..pats.len().min(4)]), show(hay), want, got),
+                            what: format!("{} on match kind {} start kind {:?} requested anchored={} engine {:?} patterns {} haystack '{}' span {:?}: expected {:?}, got {:?}", api, mk.name(), sk, anch, engine, show_pats(&pats[..pats.len().min(4)]), show(&hay[..hay.len().min(40)]), span, want, got),
                             argv: vec!["cfgprod".into()],
                         });
                     }
@@ -497,6 +504,9 @@ pub fn meta(args: &Args) -> Report {
     lists.push(vec![vec![]]);
     lists.push(vec![vec![], vec![], vec![]]);
     lists.push(vec![b"dup".to_vec(), b"dup".to_vec(), b"du".to_vec(), b"dup".to_vec()]);
+    // text patterns: lengths are byte lengths, whatever the bytes spell
+    lists.push(vec!["\u{20AC}\u{20AC}".as_bytes().to_vec(), "a\u{e9}b".as_bytes().to_vec(), "\u{1F600}\u{1F600}\u{1F600}".as_bytes().to_vec(), b"x".to_vec()]);
+    lists.push(vec!["\u{e9}".as_bytes().to_vec()]);
     lists.push((0..101u16).map(|i| format!("p{}q", i).into_bytes()).collect());
     // only long patterns (every pattern longer than a machine word has bits: the packed
     // searcher's hash window, shift amounts)
@@ -547,6 +557,29 @@ pub fn meta(args: &Args) -> Report {
             let last = stderr.lines().filter(|l| l.starts_with("CASE ")).last().unwrap_or("CASE (none)").to_string();
             rep.case(true);
             rep.fail(Fail { key: format!("meta:iter-shape-died:{}", last), what: format!("the process died ({}) while building: {}; {}", out.status.signal().map_or(format!("exit {:?}", out.status.code()), |s| format!("signal {}", s)), &last[5..], stderr.lines().filter(|l| l.contains("memory allocation") || l.contains("panicked")).last().unwrap_or("")), argv: vec!["meta".into()] });
+        }
+    }
+    // one ordinary pattern next to one beyond 2^20 bytes (both orders): identifiers are input positions
+    {
+        let mut rng = Rng(0x61A27);
+        let giant: Vec<u8> = (0..((1usize << 20) + 1)).map(|_| b"etaoinshr"[rng.below(9)]).collect();
+        for (pats, small_at) in [(vec![giant.clone(), b"foo#".to_vec()], 1usize), (vec![b"foo#".to_vec(), giant.clone()], 0usize)] {
+            for mk in [aho_corasick::MatchKind::Standard, aho_corasick::MatchKind::LeftmostFirst] {
+                for kind in [None, Some(AhoCorasickKind::NoncontiguousNFA), Some(AhoCorasickKind::ContiguousNFA)] {
+                    rep.case(true);
+                    let r = catch_unwind(AssertUnwindSafe(|| {
+                        let ac = AhoCorasickBuilder::new().kind(kind).match_kind(mk).build(&pats).map_err(|e| e.to_string())?;
+                        let mut hay = b"zz foo# zz ".to_vec();
+                        hay.extend_from_slice(&giant);
+                        hay.extend_from_slice(b" foo#");
+                        Ok::<Vec<(usize, usize)>, String>(ac.find_iter(&hay).map(|m| (m.pattern().as_usize(), m.start())).collect())
+                    }));
+                    let want = vec![(small_at, 3usize), (1 - small_at, 11), (small_at, 11 + giant.len() + 1)];
+                    if !matches!(&r, Ok(Ok(v)) if *v == want) {
+                        rep.fail(Fail { key: format!("meta:giant:{}:{:?}:{:?}", small_at, mk, kind), what: format!("patterns [{} bytes, 'foo#'] in that order reversed={} kind {:?} {:?}: expected (pattern, start) {:?}, got {:?}", giant.len(), small_at == 0, kind, mk, want, r.map(|x| x.map(|v| v.into_iter().take(6).collect::<Vec<_>>()))), argv: vec!["meta".into()] });
+                    }
+                }
+            }
         }
     }
     // an explicitly requested kind is the kind that is returned — or the build fails: a DFA whose
@@ -875,6 +908,35 @@ pub fn scaling(_args: &Args) -> Report {
             }
         }
     }
+    // a single pattern (substring prefilter): one pattern a^k b against a run of a's is all near
+    // misses; the search with the prefilter must stay within a constant factor of the plain
+    // automaton walk (one transition per byte) — here it is usually faster
+    for k in [512usize, 4096] {
+        let mut p = vec![b'a'; k];
+        p.push(b'b');
+        let mut hay = vec![b'a'; 1 << 18];
+        hay.push(b'b');
+        for mk in [Kind::Std, Kind::LF] {
+            let on = build(&Cfg { engine: Engine::TopAuto, sk: StartKindC::U, mk, ci: false, pre: true, dd: None, bc: true }, &[p.clone()]);
+            let off = build(&Cfg { engine: Engine::TopAuto, sk: StartKindC::U, mk, ci: false, pre: false, dd: None, bc: true }, &[p.clone()]);
+            if let (Ok(on), Ok(off)) = (on, off) {
+                let run = |b: &Built| -> usize { b.try_find_iter(&hay, 0, hay.len(), false).map(|v| v.len()).unwrap_or(0) };
+                let (t_on, t_off) = (time(&|| run(&on)), time(&|| run(&off)));
+                rep.case(true);
+                if t_on > 30.0 * t_off.max(40e-6) {
+                    let (a1, b1) = (time(&|| run(&on)), time(&|| run(&off)));
+                    let (a2, b2) = (time(&|| run(&on)), time(&|| run(&off)));
+                    if a1 > 30.0 * b1.max(40e-6) && a2 > 30.0 * b2.max(40e-6) {
+                        rep.fail(Fail {
+                            key: format!("scaling:memmem:{}:{}", k, mk.name()),
+                            what: format!("one pattern a^{} b ({}) on a^262144 b: {:.3} ms with the prefilter, {:.3} ms for the plain automaton walk (one transition per byte)", k, mk.name(), a1 * 1e3, b1 * 1e3),
+                            argv: vec!["scaling".into()],
+                        });
+                    }
+                }
+            }
+        }
+    }
     rep.count("largest_ratio_x10", (max_ratio * 10.0) as usize);
     rep
 }
@@ -1099,6 +1161,63 @@ pub fn purity(args: &Args) -> Report {
                                 break;
                             }
                             _ => {}
+                        }
+                    }
+                }
+            }
+        }
+    }
+    // the bytes that follow the haystack in memory are not part of the input: the same haystack
+    // followed (in the same buffer) by zeros, by filler and by bytes that would complete a longer pattern
+    {
+        let lists: Vec<Vec<Vec<u8>>> = vec![
+            vec![b"cdX".to_vec(), b"cd".to_vec(), b"ef".to_vec(), b"gh".to_vec()],
+            vec![b"cd".to_vec(), b"cdXY".to_vec(), b"ef".to_vec(), b"gh".to_vec()],
+            vec![b"abcX".to_vec(), b"abc".to_vec(), b"qrs".to_vec(), b"tuv".to_vec(), b"wxy".to_vec()],
+            vec![b"needleXYZ".to_vec(), b"needle".to_vec(), b"hay".to_vec(), b"stack".to_vec()],
+            vec![b"a".to_vec(), b"aX".to_vec(), b"b".to_vec(), b"c".to_vec(), b"d".to_vec()],
+        ];
+        for pats in &lists {
+            let mut searchers: Vec<(String, Box<dyn Fn(&[u8]) -> Vec<M>>)> = vec![];
+            for lk in [aho_corasick::packed::MatchKind::LeftmostFirst, aho_corasick::packed::MatchKind::LeftmostLongest] {
+                let mut c = aho_corasick::packed::Config::new();
+                c.match_kind(lk);
+                let mut bld = c.builder();
+                bld.extend(pats.iter());
+                if let Some(s) = bld.build() {
+                    searchers.push((format!("packed::Searcher {:?}", lk), Box::new(move |h: &[u8]| s.find_iter(h).map(cv).collect())));
+                }
+            }
+            for mk in [aho_corasick::MatchKind::LeftmostFirst, aho_corasick::MatchKind::LeftmostLongest, aho_corasick::MatchKind::Standard] {
+                if let Ok(ac) = AhoCorasickBuilder::new().match_kind(mk).build(pats) {
+                    searchers.push((format!("AhoCorasick {:?}", mk), Box::new(move |h: &[u8]| ac.find_iter(h).map(cv).collect())));
+                }
+            }
+            let short = pats.iter().min_by_key(|p| p.len()).unwrap().clone();
+            let long = pats.iter().max_by_key(|p| p.len()).unwrap().clone();
+            for (name, f) in &searchers {
+                for l in short.len()..=100usize {
+                    // the short pattern at the very end of the haystack
+                    let mut h = vec![b'z'; l - short.len()];
+                    h.extend_from_slice(&short);
+                    let mut base: Option<Vec<M>> = None;
+                    for trail in [vec![0u8; 40], vec![b'z'; 40], { let mut t = long[short.len().min(long.len())..].to_vec(); t.extend_from_slice(&[b'z'; 40]); t }, { let mut t = long.clone(); t.extend_from_slice(&long); t }] {
+                        for off in [0usize, 1, 7] {
+                            let mut buf = vec![b'z'; off];
+                            buf.extend_from_slice(&h);
+                            buf.extend_from_slice(&trail);
+                            rep.case(true);
+                            let got = match catch_unwind(AssertUnwindSafe(|| f(&buf[off..off + h.len()]))) {
+                                Ok(g) => g,
+                                Err(_) => continue,
+                            };
+                            match &base {
+                                None => base = Some(got),
+                                Some(b0) if *b0 != got => {
+                                    rep.fail(Fail { key: format!("purity:trailing:{}:{}", name, show_pats(pats)), what: format!("{} for {}: the {}-byte haystack '{}' gives {:?} or {:?} depending on the bytes that follow it in memory ('{}')", name, show_pats(pats), h.len(), show(&h[h.len().saturating_sub(12)..]), b0, got, show(&trail[..8])), argv: vec!["purity".into()] });
+                                }
+                                _ => {}
+                            }
                         }
                     }
                 }
